@@ -47,6 +47,14 @@ def fn_slices(tier):
         sl.append(dict(name=f'fn/opts/{v}', mode='fn', variant=v, meta=True,
                        bounds=dict(max_params=1, max_generics=0, max_where=0, max_deps_bounds=1, max_wrappers=1, max_fn_attrs=0, max_param_attrs=0, pat_depth=0),
                        fixed=SIMPLE_SIG + ONE_PARAM + [(r'inputs\[0\]\.ty$', '&'), (r'inputs\[0\]\.ty\.&$', 'impl'), (r'\.lt$', 'None'), (r'\.sig\.output$', '()')]))
+    # 2a. the same lattice for a concrete dependency (the leaf trait is expanded once more by a nested attribute) (C10 C05)
+    for v in ('entrait', 'entrait_export_unimock'):
+        sl.append(dict(name=f'fn/opts-concrete/{v}', mode='fn', variant=v,
+                       bounds=dict(max_params=0, max_generics=0, max_where=0, max_deps_bounds=1, max_wrappers=1, max_fn_attrs=0, max_param_attrs=0, pat_depth=0,
+                                   deps_kinds=('&',), deps_inner_kinds=('path:C',)),
+                       opts_only=('unimock', 'mockall', 'mock_api', 'export'),
+                       fixed=SIMPLE_SIG + [(r'\.sig\.inputs$', 'len=1'), (r'inputs\[0\]$', 'typed'), (r'inputs\[0\]\.pat$', 'deps'), (r'inputs\[\d\]\.attrs$', 'len=0'),
+                                           (r'\.lt$', 'None'), (r'\.sig\.output$', '()'), (r'\.sig\.async$', 'absent')]))
     # 2b. unmock entries per dependency kind, argument order for no_deps (C11)
     sl.append(dict(name='fn/unmock', mode='fn', opts_only=('no_deps', 'unimock', 'mock_api'),
                    bounds=dict(max_params=2, max_generics=1, max_where=0, max_deps_bounds=1, max_wrappers=1, max_fn_attrs=0, max_param_attrs=0, pat_depth=0,
@@ -158,6 +166,13 @@ def impl_slices(tier):
                    bounds=dict(max_params=1, max_generics=1 if big else 0, max_where=0, max_deps_bounds=2 if big else 1, max_wrappers=1, max_fn_attrs=1 if big else 0, max_param_attrs=0, pat_depth=0,
                                deps_kinds=('&',), deps_inner_kinds=('path:D', 'path:C', 'impl'), vis_alts=('inherited', 'pub'), bound_shapes=True),
                    fixed=base_fixed + [(r'impl\.attrs$', 'len=0'), (r'\.sig\.inputs$', 'len=2'), (r'inputs\[0\]$', 'typed')]))
+    # parameter patterns of impl-block fns (the same naming pass must run for them) (C07 C16 C15 C01)
+    sl.append(dict(name='impl/patterns', mode='impl', max_items=1,
+                   bounds=dict(max_params=2, max_generics=0, max_where=0, max_deps_bounds=1, max_wrappers=1, max_fn_attrs=0, max_param_attrs=0, pat_depth=1, pat_width=1,
+                               deps_kinds=('&',), deps_inner_kinds=('impl',), vis_alts=('pub',)),
+                   fixed=[(r'\.sig\.const$', 'absent'), (r'\.sig\.unsafe$', 'absent'), (r'\.sig\.abi$', 'None'), (r'\.generics\.where$', 'None'), (r'\.generics\.params$', 'len=0'),
+                          (r'inputs\[0\]\.pat$', 'deps'), (r'\.lt$', 'None'), (r'\.impl$', 'len=1'), (r'inputs\[0\]$', 'typed'), (r'items\[\d\]\.attrs$', 'len=0'),
+                          (r'impl\.attrs$', 'len=0'), (r'inputs\[\d\]\.attrs$', 'len=0'), (r'\.sig\.output$', '()'), (r'\.sig\.async$', 'absent')]))
     sl.append(dict(name='impl/attrs-async', mode='impl', max_items=1,
                    bounds=dict(max_params=1, max_generics=0, max_where=0, max_deps_bounds=1, max_wrappers=1, max_fn_attrs=2 if big else 1, max_param_attrs=1 if big else 0, pat_depth=1 if big else 0,
                                deps_kinds=('&',), deps_inner_kinds=('impl', 'path:D') if big else ('impl',), vis_alts=('inherited', 'pub') if big else ('pub',), qualifiers=True),
@@ -194,6 +209,23 @@ def trait_slices(tier):
                    bounds=dict(max_params=1, max_generics=2, max_where=0, max_deps_bounds=1, max_fn_attrs=0, max_param_attrs=0),
                    fixed=simple_t + [(r'\.default$', 'required'), (r'\.pat$', 'ident'), (r'inputs\[\d\]\.attrs$', 'len=0'), (r'\.fn\.attrs$', 'len=0'),
                                      (r'\.fn\.generics\.where$', 'None'), (r'inputs\[0\]$', '&self')]))
+    # provided (default-bodied) methods next to required ones: every method is forwarded, whatever the selector (C06)
+    sl.append(dict(name='trait/defaults', mode='trait', max_items=2, assoc_items=False, delegation=('none', 'ref', 'borrow'), impl_trait=('none',), opts_only=(),
+                   bounds=dict(max_params=1, max_generics=0, max_where=0, max_deps_bounds=1, max_fn_attrs=0, max_param_attrs=0),
+                   fixed=simple_m + simple_t + [(r'\.pat$', 'ident'), (r'inputs\[0\]$', '&self'), (r'\.fn\.async$', 'absent'), (r'\.fn\.output$', '()')]))
+    # two trait generics of different kinds in every legal order (`<const N: usize, X>`): parameters and arguments stay aligned (C06 C09 C07)
+    sl.append(dict(name='trait/generics-2', mode='trait', max_items=1, assoc_items=False, delegation=('none', 'ref', 'trait'), opts_only=(),
+                   bounds=dict(max_params=0, max_generics=2, max_where=0, max_deps_bounds=1, max_fn_attrs=0, max_param_attrs=0),
+                   fixed=[(r'trait\.attrs$', 'len=0'), (r'trait\.vis$', 'pub'), (r'\.default$', 'required'), (r'inputs\[0\]$', '&self'),
+                          (r'inputs\[\d\]\.attrs$', 'len=0'), (r'\.fn\.attrs$', 'len=0'), (r'impl_trait\.vis$', 'inherited'), (r'\.fn\.async$', 'absent'),
+                          (r'\.fn\.output$', '()'), (r'\.fn\.generics\.where$', 'None'), (r'\.fn\.generics\.params$', 'len=0'), (r'trait\.generics\.where$', 'None'),
+                          (r'trait\.colon$', 'None'), (r'trait\.supertraits$', 'len=0'), (r'\.bounds$', 'len=0')]))
+    # attributes on the methods of a trait that also gets a delegation-target trait: mirrored on every copy of the method (C18)
+    sl.append(dict(name='trait/method-attrs', mode='trait', max_items=1, assoc_items=False, delegation=('ref', 'trait', 'borrow'), impl_trait=('some',), opts_only=(),
+                   bounds=dict(max_params=0, max_generics=0, max_where=0, max_deps_bounds=1, max_fn_attrs=1, max_param_attrs=0),
+                   fixed=[(r'\.fn\.generics\.params$', 'len=0'), (r'\.fn\.generics\.where$', 'None'), (r'inputs\[\d\]\.attrs$', 'len=0')] + simple_t +
+                         [(r'\.default$', 'required'), (r'inputs\[0\]$', '&self'), (r'\.fn\.inputs$', 'len=1'), (r'\.fn\.output$', '()'), (r'\.fn\.async$', 'absent'),
+                          (r'impl_trait\.vis$', 'inherited')]))
     # options on traits (C10 C11)
     sl.append(dict(name='trait/opts', mode='trait', max_items=1, meta=True, assoc_items=False, delegation=('none', 'ref', 'trait'),
                    bounds=dict(max_params=1, max_generics=0, max_where=0, max_deps_bounds=1, max_fn_attrs=0, max_param_attrs=0),
@@ -239,24 +271,24 @@ def front_slices(tier):
 
 
 OTHER_FOR = {
-    'C01': ['mod/items'],
+    'C01': ['mod/items', 'impl/patterns'],
     'C02': ['mod/items', 'mod/visibility', 'impl/items', 'impl/attrs-async', 'front/item/'],
     'C03': ['mod/items', 'impl/items'],
     'C04': ['mod/items', 'impl/items', 'mod/attrs-async-opts', 'mod/bound-shapes'],
     'C05': ['trait/leaf'],
-    'C06': ['trait/delegation', 'trait/generics', 'trait/opts', 'trait/leaf'],
-    'C07': ['impl/items', 'impl/attrs-async', 'trait/delegation', 'trait/generics'],
+    'C06': ['trait/delegation', 'trait/generics', 'trait/opts', 'trait/leaf', 'trait/defaults', 'trait/generics-2'],
+    'C07': ['impl/items', 'impl/attrs-async', 'impl/patterns', 'trait/delegation', 'trait/generics', 'trait/generics-2'],
     'C08': ['mod/items', 'mod/visibility', 'impl/items', 'front/item/mod-1', 'front/item/mod-2', 'front/item/impl-1', 'front/item/impl-2', 'front/item/mod-tokens'],
-    'C09': ['trait/definition', 'trait/generics', 'trait/delegation', 'front/item/trait'],
+    'C09': ['trait/definition', 'trait/generics', 'trait/generics-2', 'trait/delegation', 'trait/opts', 'front/item/trait'],
     'C10': ['mod/attrs-async-opts', 'trait/opts'],
     'C11': ['mod/attrs-async-opts', 'trait/opts'],
     'C12': ['mod/attrs-async-opts', 'impl/attrs-async', 'trait/delegation', 'trait/leaf'],
     'C13': ['mod/visibility', 'mod/items', 'trait/delegation', 'trait/definition', 'trait/target-visibility', 'front/item/trait'],
     'C14': ['mod/attrs-async-opts', 'impl/items', 'trait/delegation', 'trait/leaf'],
     'C17': ['front/attr/', 'front/attr-items/', 'trait/opts', 'mod/meta/'],
-    'C15': ['front/attr/', 'front/attr-items/', 'front/item/mod-1', 'mod/items', 'impl/items', 'impl/attrs-async', 'mod/attrs-async-opts', 'trait/delegation', 'trait/definition', 'trait/opts'],
-    'C16': ['impl/attrs-async'],
-    'C18': ['mod/attrs-async-opts', 'impl/attrs-async', 'impl/items', 'trait/definition', 'trait/delegation'],
+    'C15': ['front/attr/', 'front/attr-items/', 'front/item/mod-1', 'mod/items', 'impl/items', 'impl/attrs-async', 'impl/patterns', 'mod/attrs-async-opts', 'trait/delegation', 'trait/definition', 'trait/opts'],
+    'C16': ['impl/attrs-async', 'impl/patterns'],
+    'C18': ['mod/attrs-async-opts', 'impl/attrs-async', 'impl/items', 'trait/definition', 'trait/delegation', 'trait/method-attrs'],
     'C19': ['mod/attrs-async-opts', 'impl/items', 'impl/attrs-async', 'trait/delegation', 'trait/opts', 'trait/generics'],
     'C20': ['mod/items', 'impl/items', 'trait/delegation'],
 }
@@ -273,6 +305,11 @@ SPLIT = {
         'trait/definition': (r'^trait\.(vis|unsafe)$', 2),
         'trait/generics': (r'^trait\.generics\.params$', 2),
         'front/item/mod-1': (r'^seg:it\.a\.(abi|term)$', 3),
+        'front/item/impl-1': (r'^seg:it\.a\.(abi|term)$', 3),
+        'front/item/fn': (r'^seg:it\.sa\.(abi|term)$', 3),
+        'impl/attrs-async': [(r'^attr\.kind$', 2), (r'^impl\.unsafe$', 2)],
+        'impl/patterns': (r'^attr\.kind$', 2),
+        'trait/delegation': (r'^attr\.opts\.future_send$', 2),
         'front/attr/trait': (r'^a\[0\]$', 3),
         'front/attr/impl': (r'^a\[0\]$', 3),
     },
@@ -290,6 +327,7 @@ SPLIT = {
         'trait/delegation': (r'^attr\.(delegate_by|impl_trait)$', 2),
         'impl/items': (r'^impl\.items$', 4),
         'front/item/mod-1': (r'^seg:it\.a\.(abi|term)$', 3),
+        'front/item/impl-1': (r'^seg:it\.a\.(abi|term)$', 3),
         'front/item/fn': (r'^seg:it\.sa\.(abi|term)$', 3),
     },
 }
@@ -301,6 +339,18 @@ def all_slices(tier):
         sp = SPLIT.get('quick' if tier == 'quick' else 'thorough', {}).get(sl['name'])
         if not sp:
             out.append(sl)
+            continue
+        if isinstance(sp, list):
+            # explicit product of single-key splits: [(regex, n), ..]
+            combos = [[]]
+            for rx_, n_ in sp:
+                combos = [c + [(rx_, k, n_)] for c in combos for k in range(n_)]
+            for c in combos:
+                assert all('|' not in r_ for r_, _, _ in c)
+                part = dict(sl)
+                part['name'] = sl['name'] + '#' + '.'.join(str(k) for _, k, _ in c)
+                part['restrict'] = c
+                out.append(part)
             continue
         rx, n = sp
         import re as _re
